@@ -2,7 +2,9 @@ import Rc.Model.AsPath
 /-! C13 line protocol (model side).
 
 hop path  `-` | hop{,hop}      hop = `a<asn>` | `s<ty>/<w>:<asn>{.<asn>}` (`s1/4:` = empty set)
-requests  compose H | compose16 H | count H      (H: API-constructible hops only: w=4, ty in {1,3,4})
+requests  compose H | compose16 H | count H | hprepend H ASN N | hpeq H H
+          (H: API-constructible hops only: `s<1|3|4>/4:` of any length = Segment::new_*; any other
+           `s<1..4>/<2|4>:` = a segment cut out of a wire path of that width: at most 255 ASNs, ASNs fit the width)
           wire W HEX | prepend W HEX ASN N | eq W1 HEX1 W2 HEX2      (W = 2 | 4)
 -/
 namespace Rc.Drv.C13
@@ -21,13 +23,6 @@ def showList (xs : List String) : String := if xs.isEmpty then "-" else String.i
 def showHops (h : HopPath) : String := showList (h.map showHop)
 def showSegs (ss : List Seg) : String := showList (ss.map showSeg)
 
-def showHW : HW → String
-  | .u8 n => s!"b{n}"
-  | .u32 n => s!"w{n}"
-
-def showHash (ws : List HW) : String :=
-  if ws.isEmpty then "-" else String.intercalate "." (ws.map showHW)
-
 def parseAsn (s : String) : Option Nat :=
   match s.toNat? with
   | some n => if n < 4294967296 then some n else none
@@ -36,15 +31,20 @@ def parseAsn (s : String) : Option Nat :=
 def parseAsns (s : String) : Option (List Nat) :=
   if s.isEmpty then some [] else (s.splitOn ".").mapM parseAsn
 
-/-- request-side hops: only what the public API can construct directly -/
+/-- request-side hops: only what the public API can construct -/
 def parseHop (s : String) : Option Hop :=
   match s.toList with
   | 'a' :: r => (parseAsn (String.ofList r)).map Hop.asn
-  | 's' :: t :: '/' :: '4' :: ':' :: r =>
+  | 's' :: t :: '/' :: wc :: ':' :: r =>
     let ty := t.toNat - 48
-    if ty = 1 ∨ ty = 3 ∨ ty = 4 then
-      (parseAsns (String.ofList r)).map fun as => Hop.seg ⟨ty, true, as⟩
-    else none
+    let four? : Option Bool := if wc = '4' then some true else if wc = '2' then some false else none
+    match four?, parseAsns (String.ofList r) with
+    | some four, some as =>
+      if four ∧ (ty = 1 ∨ ty = 3 ∨ ty = 4) then some (Hop.seg ⟨ty, true, as⟩)     -- Segment::new_*
+      else if 1 ≤ ty ∧ ty ≤ 4 ∧ as.length ≤ 255 ∧ (four ∨ as.all (fun a => decide (a ≤ 65535))) then
+        some (Hop.seg ⟨ty, four, as⟩)                                               -- cut out of a wire path
+      else none
+    | _, _ => none
   | _ => none
 
 def parseHops (s : String) : Option HopPath :=
@@ -99,15 +99,37 @@ def handle (ws : List String) : String :=
     match parseHops h with
     | none => "bad-op"
     | some h => s!"ok {hopCount h} {hopCountSel h}"
+  | ["hpeq", h1, h2] =>
+    -- `HopPath == HopPath` (derived, `Hop::eq` element-wise) and whether the two hash alike
+    match parseHops h1, parseHops h2 with
+    | some a, some b =>
+      let he := match hopPathHashKey a, hopPathHashKey b with
+        | .ok x, .ok y => bstr (x == y)
+        | _, _ => "panic"
+      s!"ok {bstr (hopPathEq a b)} {he}"
+    | _, _ => "bad-op"
+  | ["hprepend", h, a, n] =>
+    -- HopPath::prepend_n(asn, n) on an API-built hop path, then to_as_path + hops()
+    match parseHops h, parseAsn a, n.toNat? with
+    | some h, some a, some n =>
+      if n > 2000 then "bad-op" else
+      match compose true (List.replicate n (Hop.asn a) ++ h) with
+      | .ok bs =>
+        match hops true bs with
+        | .ok hs => s!"ok {hexOrDash bs} hops={showHops hs}"
+        | _ => "panic"
+      | .err => "err"
+      | .panic => "panic"
+    | _, _, _ => "bad-op"
   | ["wire", w, hx] =>
     match parseW w, bytesOfHex hx with
     | some four, some bs =>
       match check four bs with
       | .ok _ =>
-        match segments four bs, toHopPath four bs, hashKey four bs with
-        | .ok ss, .ok hs, .ok hk =>
-          s!"ok segs={showSegs ss} hops={showHops hs} back32={showOB (compose true hs)} back16={showOB (compose false hs)} hash={showHash hk} single={bstr (isSingleSequence four bs)}"
-        | _, _, _ => "panic"
+        match segments four bs, toHopPath four bs with
+        | .ok ss, .ok hs =>
+          s!"ok segs={showSegs ss} hops={showHops hs} back32={showOB (compose true hs)} back16={showOB (compose false hs)} count={hopCountSel hs} single={bstr (isSingleSequence four bs)}"
+        | _, _ => "panic"
       | _ => "err"
     | _, _ => "bad-op"
   | ["prepend", w, hx, a, n] =>
